@@ -57,6 +57,10 @@ class UModule:
     def __setattr__(self, a, v):
         object.__getattribute__(self, '_g')[a] = v
 
+    def __dir__(self):
+        g = object.__getattribute__(self, '_g')
+        return [k for k in g if isinstance(k, str)]
+
     def __repr__(self):
         return '<UModule %s>' % object.__getattribute__(self, '__name__')
 
@@ -310,6 +314,8 @@ class Universe:
         top = name.split('.')[0]
         if top == 'cython':
             return self.cython
+        if not fromlist and name in self.stubs:
+            return self.stubs[name]
         if top == 'numpy':
             if fromlist:
                 obj = self.np
